@@ -113,6 +113,18 @@ CLAIMED["C17"] = dict(
          "A documented NotImplementedError is accepted as refusal and counted. One genuine defect repaired (fix:), one known finding.",
     note=TB + "The text interpreter and its token->tensor catalogue (harness/props/c17.py) are trusted glue. libtensor text does not state the result index order. Inputs are sampled.")
 
+CLAIMED["C13"] = dict(
+    category="translation_validation", design="DESIGN.md §4 C13",
+    technique="per-run Lean obligations (one universally quantified field identity per instance, proved by field_simp/ring and kernel-checked) for the scalar steps + proved checker checkEquiv for the structural steps under stated model hypotheses",
+    text="Scalar steps (split/recombine, canonicalize_sign, cancel_orb_energy_frac, use_symbolic_denominators): the remainder tensors are "
+         "checked equal by the Lean driver and the identity between the rational functions of the orbital energies is written as a Lean "
+         "`example` over an arbitrary field of characteristic 0 (all energies universally quantified, brackets non-zero) and proved in "
+         "this run. Structural steps (permute_num on the contracted value, factor_eri_parts/factor_denom as partitions, "
+         "use_explicit_denominators, diagonalize_fock, block_diagonalize_fock) are validated by checkEquiv (checkEquiv_sound, "
+         "partition_lossless) after a relabelling that states the hypothesis (D = 1/bracket, f_pq = delta_pq e_p, f_ov = 0). "
+         "Three genuine defects were repaired (fix: commits). Inputs are sampled.",
+    note=TB + "Trusted glue: the obligation generator (exported scalar part -> Lean expression), the relabellings, the harness-side monic normal form of brackets.")
+
 PENDING = {
 }
 
